@@ -31,6 +31,7 @@ void vs_move_rot(int c);
 /* called by a scenario thread between two library calls: gives the baton back, pending = idle */
 void vs_idle(void);
 int vs_self(void);
+int vs_pending(int t, int* idx);                   /* kind of thread t's pending primitive call (1 = lock, 3 = unlock, ...) and its primitive index */
 long long vs_now(void);
 
 /* observation */
